@@ -3,4 +3,4 @@ from .. import lemmas_stage2
 
 
 def run(ctx):
-    run_lemmas(ctx, lemmas_stage2.p3_lemmas(ctx.tier))
+    run_lemmas(ctx, lemmas_stage2.p3_lemmas(ctx.tier) + lemmas_stage2.p3_skeleton_lemmas(ctx.tier))
